@@ -159,9 +159,14 @@ def impl_roundtrip(a):
     except Exception as e:  # noqa: BLE001
         return B.classify_exc(e)
     out = G.real_parse_bytes(u, a["clazz"], xml.encode(), handler=a["handler"], config=a["config"])
-    if "ok" in out:
+    if "ok" in out and a.get("_bindings"):
         out["ok"]["bindings"] = _bindings(xml)
     return out
+
+
+def impl_roundtrip_scoped(a):
+    """`impl_roundtrip` + the prefix bindings of the document (for `cmp_roundtrip`)"""
+    return impl_roundtrip({**a, "_bindings": True})
 
 
 def _bindings(xml):
